@@ -8,7 +8,8 @@
      obs_schemas   (0 nodes) | (1 exn): list(schema_iter(...)), node = (kind title? anchor? cobol? ((key node) ...))
    good  = Layer A returned the intended entries, the observed forest is the one the specification
            (Spec/Dde.v) demands of the intended entries and equals the model's, the schemas equal
-           the model's, and a well-formed copybook ends in no error.
+           the model's, and a well-formed copybook ends in no error and its schemas define every kept
+           entry exactly once, in full, nested as the forest (skel = skel_tree).
    agree = forest and schemas equal the model run on the OBSERVED sentences. *)
 From Coq Require Import ZArith NArith List Bool Arith.
 Import ListNotations.
@@ -115,11 +116,58 @@ Fixpoint is_prefix (p s : str) : bool :=
   | _, [] => false
   end.
 
-(* domain of the schema-shape model: within a tree the unique names are pairwise distinct and none
-   starts with REDEFINES- *)
-Definition in_schema_dom (f : list tree) : bool :=
-  forallb (fun t => let us := map du (preorder t) in
-                    nodup_str us && forallb (fun u => negb (is_prefix REDEFINES_dash u)) us) f.
+(* all unique names of a tree pairwise distinct (only used for the branch id) *)
+Definition all_distinct (f : list tree) : bool :=
+  forallb (fun t => nodup_str (map du (preorder t))) f.
+
+(* names of a well-formed record: no item is named like one of its ancestors (qualification would be
+   ambiguous), siblings have different names, no name starts with REDEFINES-.  The same name under
+   different parents is fine. *)
+Fixpoint names_wf_t (anc : list str) (t : tree) : bool :=
+  match t with
+  | TNode d _ kids =>
+      negb (existsb (str_eqb (du d)) anc) && negb (is_prefix REDEFINES_dash (du d))
+      && nodup_str (map (fun k => du (troot k)) kids)
+      && forallb (names_wf_t (du d :: anc)) kids
+  end.
+
+(* The entries a schema defines in full, nested as the schema nests them: (title cobol (kids)).
+   A oneOf property is transparent (its alternatives belong to the object that holds it), a ref
+   placeholder and an untitled node (inner item of an elementary OCCURS) contribute nothing. *)
+Fixpoint skel (s : snode) : sx :=
+  match s with
+  | SN _ t _ c props =>
+      L [sx_optstr t; sx_optstr c;
+         L (flat_map (fun p => match p with
+                               | (_, v) =>
+                                   match v with
+                                   | SN kk tt _ _ alts =>
+                                       if (kk =? 3)%N then map (fun q => match q with (_, w) => skel w end) alts
+                                       else if (kk =? 4)%N then []
+                                       else match tt with None => [] | Some _ => [skel v] end
+                                   end
+                               end) props)]
+  end.
+
+(* what the property demands of it: one node per kept entry, nested as the forest, titled with the
+   data name and carrying the clause text *)
+Fixpoint skel_tree (t : tree) : sx :=
+  match t with
+  | TNode d _ kids =>
+      L [sx_optstr (Some (dde_name (de d))); sx_optstr (Some ([fst (dlv d); snd (dlv d); 32%N] ++ etext (de d)));
+         L (map skel_tree kids)]
+  end.
+
+Fixpoint snode_of_sx (s : sx) : snode :=
+  match s with
+  | L (k :: t :: a :: c :: L props :: _) =>
+      SN (as_N k) (as_optstr t) (as_optstr a) (as_optstr c)
+         (map (fun p => match p with
+                        | L (key :: v :: _) => (as_str key, snode_of_sx v)
+                        | _ => ([], SN 9 None None None [])
+                        end) props)
+  | _ => SN 9 None None None []
+  end.
 
 (* a node carrying a redefines clause under an OCCURS group (known finding 2) *)
 Fixpoint redef_in_occurs (t : tree) : bool :=
@@ -146,7 +194,7 @@ Definition wf_copybook (l : list entry) (f : list tree) : bool :=
   match l with
   | [] => false
   | e :: _ => kept_level (lvl_num (elv e))
-  end && forallb level_ok l && forallb wf_tree f && in_schema_dom f.
+  end && forallb level_ok l && forallb wf_tree f && forallb (names_wf_t []) f.
 
 (* reserved words the clause pattern matches at the start of a longer data name (known finding 3) *)
 Definition kw (s : list Z) : str := map Z.to_N s.
@@ -197,7 +245,7 @@ Definition judge (c : sx) : sx :=
   let mf := structure intended in
   let ms := schemas intended in
   let mforest := match mf with Ok f => f | Err _ => [] end in
-  let dom := in_schema_dom mforest in
+  let dom := all_distinct mforest in
   let layerA := res_ok_sx osent && entries_sim intended observed in
   let forest_ok := sx_eqb oforest (sx_forest mf) in
   let spec_ok :=
@@ -210,16 +258,18 @@ Definition judge (c : sx) : sx :=
                     && spec_holds (d :: filter keep r) (map obs_tree (as_list (nth_sx 1 oforest)))
         end
     end in
-  let schema_ok := if dom then sx_eqb oschema (sx_schemas ms) else true in
+  let schema_ok := sx_eqb oschema (sx_schemas ms) in
   let wf := is_ok mf && wf_copybook intended mforest in
-  let wf_ok := if wf then res_ok_sx oforest && res_ok_sx oschema else true in
+  let wf_ok :=
+    if wf then res_ok_sx oforest && res_ok_sx oschema
+               && sx_eqb (L (map (fun x => skel (snode_of_sx x)) (as_list (nth_sx 1 oschema))))
+                         (L (map skel_tree mforest))
+    else true in
   let good := layerA && forest_ok && spec_ok && schema_ok && wf_ok in
   (* model on the observed sentences *)
   let agree :=
     if res_ok_sx osent then
-      let af := structure observed in
-      let adom := in_schema_dom (match af with Ok f => f | Err _ => [] end) in
-      sx_eqb oforest (sx_forest af) && (if adom then sx_eqb oschema (sx_schemas (schemas observed)) else true)
+      sx_eqb oforest (sx_forest (structure observed)) && sx_eqb oschema (sx_schemas (schemas observed))
     else sx_eqb oforest osent && sx_eqb oschema osent in
   let known :=
     if ends_badly text then Some 1
